@@ -710,6 +710,7 @@ func (s *Session) runInputLoop(ctx context.Context) error {
 		case <-s.closedChan:
 			return nil
 		case seg := <-s.recvChan:
+			verifPoint(4)
 			if err := s.input(seg); err != nil {
 				err = fmt.Errorf("input() failed: %w", err)
 				log.Debugf("%v %v", s, err)
